@@ -32,6 +32,10 @@ def _base_of(a):
 def snap(obj, depth=0):
     """Deep, byte-exact description of an argument (arrays: bytes + dtype/shape/strides of the view AND of
     the buffer it is a view of; containers recursively, in order)."""
+    if isinstance(obj, np.ndarray) and obj.dtype == object:
+        # object arrays have no meaningful raw bytes: compare element by element (identity and value)
+        flat = [obj[idx] for idx in np.ndindex(obj.shape)] if obj.ndim else [obj[()]]
+        return ('ndobj', obj.shape, obj.strides, [(id(e), snap(e, depth + 1)) for e in flat])
     if isinstance(obj, np.ndarray):
         base = _base_of(obj)
         extra = None
@@ -61,6 +65,12 @@ def diff_path(a, b, path=''):
         return None
     if a[0] != b[0]:
         return f'{path}: kind {a[0]} -> {b[0]}'
+    if a[0] == 'ndobj':
+        if a[1:3] != b[1:3]:
+            return f'{path}: object array shape/strides {a[1:3]} -> {b[1:3]}'
+        for k, (ea, eb) in enumerate(zip(a[3], b[3])):
+            if ea != eb:
+                return f'{path}: object-array element {k} (flat) changed: {str(ea[1])[:40]} -> {str(eb[1])[:40]}'
     if a[0] == 'nd':
         if a[1:4] != b[1:4]:
             return f'{path}: dtype/shape/strides {a[1:4]} -> {b[1:4]}'
@@ -306,7 +316,8 @@ def nested_window_kwargs(sel, n):
 
 
 NO_FORM = object()
-CONTAINER_FORMS = ('scalar', 'tuple1', 'list1', 'list2', 'tuple2', 'arr1', 'arr2', 'empty_list')
+CONTAINER_FORMS = ('scalar', 'tuple1', 'list1', 'list2', 'tuple2', 'arr1', 'arr2', 'empty_list',
+                   'objarr', 'objarr_flat', 'objarr_none_first', 'objarr_none_last', 'list_none_last')
 
 
 def apply_form(base, form):
@@ -335,6 +346,27 @@ def apply_form(base, form):
         return np.array([first, second]) if numeric else NO_FORM
     if form == 'empty_list':
         return []
+    # object-dtype ndarrays: the documented forms that hold None inside a sequence (open-ended bounds, per-axis
+    # 'use the default') written as an array; np.asarray / np.atleast_2d do NOT copy these
+    def obj(v):
+        out = np.empty(len(v), dtype=object)
+        for i, e in enumerate(v):
+            out[i] = e
+        return out
+    if form == 'objarr':
+        if isinstance(base, (tuple, list)) and base and isinstance(base[0], (tuple, list)):
+            return np.array([list(r) for r in base], dtype=object)
+        return obj(elems) if isinstance(base, (tuple, list)) else NO_FORM
+    if form == 'objarr_flat':
+        return obj(list(first)) if isinstance(first, (tuple, list)) else NO_FORM
+    if form in ('objarr_none_first', 'objarr_none_last', 'list_none_last'):
+        if isinstance(first, dict):
+            return NO_FORM
+        if isinstance(first, (tuple, list)):
+            rows = [[None, 10], [20, None]] if form != 'objarr_none_first' else [[None, None], [30, 35]]
+            return np.array(rows, dtype=object) if form != 'list_none_last' else rows
+        pair = [None, second] if form == 'objarr_none_first' else [first, None]
+        return obj(pair) if form != 'list_none_last' else pair
     return NO_FORM
 
 
@@ -987,6 +1019,16 @@ SEQ_PARAM_CASES = [
     (False, 'noise_median', {'half_window': ('int0', 3), 'smooth_half_window': ('int0', 2)}),
     (False, 'cwt_br', {'scales': ('int', [2, 3, 4])}),
     (False, 'custom_bc', {'regions': ('int2', [[3, 9], [20, 26]]), 'sampling': ('int', [1, 2])}),
+    (False, 'custom_bc', {'regions': ('obj', [[None, 9], [20, None]])}),
+    (False, 'custom_bc', {'regions': ('obj', [30, None])}),
+    (False, 'custom_bc', {'regions': ('obj', [[None, None]])}),
+    (False, 'custom_bc', {'regions': ('obj', [[20, None], [None, 9]])}),
+    (False, 'custom_bc', {'regions': ('obj', [[None, 9], [20, None]]), 'sampling': ('obj', [2, 3])}),
+    (False, 'golotvin', {'sections': ('obj', [4, None])}),
+    (False, 'corner_cutting', {'max_iter': ('obj', [5, None])}),
+    (True, 'noise_median', {'half_window': ('obj', [2, None])}),
+    (True, 'poly', {'poly_order': ('obj', [2, None])}),
+    (True, 'asls', {'lam': ('obj', [100.0, None])}),
 ]
 
 
@@ -1003,7 +1045,7 @@ def seq_param_cases(ctx):
             ctor = {'x_data': x}
         kw = M.call_kwargs(name, two_d)
         for k, (ty, val) in spec.items():
-            kw[k] = np.array(val, dtype=np.int64 if ty.startswith('int') else float)
+            kw[k] = np.array(val, dtype=object) if ty == 'obj' else np.array(val, dtype=np.int64 if ty.startswith('int') else float)
         before = {k: snap(v) for k, v in kw.items()}
         outcome = 'ok'
         try:
